@@ -154,6 +154,10 @@ static int32_t wr_data(struct jls_core_fsr_s * self) {
     }
     uint32_t data_length = (self->data->header.entry_count * sample_size_bits(self) + 7) / 8;
     uint32_t payload_length = sizeof(struct jls_fsr_data_s) + data_length;
+    uint8_t tail_bits = (uint8_t) ((self->data->header.entry_count * sample_size_bits(self)) & 7);
+    if (tail_bits) {  // clear the unused bits of a final partial byte
+        ((uint8_t *) self->data->data)[data_length - 1] &= (uint8_t) ((1U << tail_bits) - 1);
+    }
     bool omit_data = (self->write_omit_data > 1);
     struct jls_core_track_s * track = &self->parent->tracks[JLS_TRACK_TYPE_FSR];
 
@@ -449,42 +453,39 @@ int32_t jls_core_fsr_summary1(struct jls_core_fsr_s * self, int64_t pos) {
     return 0;
 }
 
-static int32_t wr_data_inner(struct jls_core_fsr_s * self, const void * data, uint32_t data_length) {
+// Append data_length samples to the sample buffer.  The first sample starts
+// src_bit bits into data; sub-byte samples are packed from the least significant bit.
+static int32_t wr_data_inner(struct jls_core_fsr_s * self, const void * data, uint64_t src_bit, uint32_t data_length) {
     struct jls_fsr_data_s * b = self->data;
     uint8_t sample_size_bits = jls_datatype_parse_size(self->parent->signal_def.data_type);
     const uint8_t * src_u8 = (const uint8_t *) (data);
-    uint8_t * dst_u8;
-    uint8_t shift_this = (data_length * sample_size_bits) % 8;
-    uint8_t shift_amount_next = (shift_this + self->shift_amount) % 8;
 
     while (data_length) {
-        dst_u8 = (uint8_t *) &b->data[0];
-        dst_u8 += (b->header.entry_count * sample_size_bits) / 8;
+        uint8_t * dst_u8 = (uint8_t *) &b->data[0];
+        uint64_t dst_bit = ((uint64_t) b->header.entry_count) * sample_size_bits;
         uint32_t length = (uint32_t) (self->data_length - b->header.entry_count);
         if (data_length < length) {
             length = data_length;
         }
-        if (self->shift_amount) {
-            uint8_t mask = (1 << self->shift_amount) - 1;
-            uint32_t bits = length * sample_size_bits + self->shift_amount;
-            while (bits) {
-                uint16_t v = (self->shift_buffer & mask) | (((uint16_t) (*src_u8++)) << self->shift_amount);
-                if (bits >= 8) {
-                    *dst_u8++ = (uint8_t) v;
-                    bits -= 8;
-                    self->shift_buffer = (uint8_t) (v >> 8);
-                } else {
-                    self->shift_buffer = (uint8_t) v;
-                    break;
-                }
+        uint64_t sz_bits = ((uint64_t) length) * sample_size_bits;
+        if ((0 == (src_bit & 7)) && (0 == (dst_bit & 7))) {
+            // both byte aligned: copy whole bytes, then any remaining bits below
+            uint64_t whole = sz_bits / 8;
+            if (whole) {
+                memcpy(dst_u8 + (dst_bit / 8), src_u8 + (src_bit / 8), (size_t) whole);
             }
-        } else {
-            size_t byte_length = (length * sample_size_bits) / 8;
-            if (byte_length) {
-                memcpy(dst_u8, src_u8, byte_length);
+            src_bit += whole * 8;
+            dst_bit += whole * 8;
+            sz_bits -= whole * 8;
+        }
+        for (; sz_bits > 0; --sz_bits, ++src_bit, ++dst_bit) {
+            uint8_t bit = (uint8_t) ((src_u8[src_bit / 8] >> (src_bit & 7)) & 1);
+            uint8_t mask = (uint8_t) (1U << (dst_bit & 7));
+            if (bit) {
+                dst_u8[dst_bit / 8] |= mask;
+            } else {
+                dst_u8[dst_bit / 8] &= (uint8_t) ~mask;
             }
-            self->shift_buffer = src_u8[byte_length];
-            src_u8 += byte_length;
         }
         b->header.entry_count += length;
         data_length -= length;
@@ -492,7 +493,6 @@ static int32_t wr_data_inner(struct jls_core_fsr_s * self, const void * data, ui
             ROE(wr_data(self));
         }
     }
-    self->shift_amount = shift_amount_next;
     return 0;
 }
 
@@ -519,44 +519,9 @@ int32_t jls_wr_fsr_data(struct jls_core_fsr_s * self, int64_t sample_id, const v
         if ((sample_id + data_length) <= sample_id_next) {
             return 0;
         }
-        const uint8_t * data_u8 = (const uint8_t *) data;
-        const uint8_t * data_end_u8 = data_u8 + (data_length * sample_size_bits + 7) / 8;
+        // keep what was already accepted: append only the part beyond it
         uint32_t ffwd = (uint32_t) (sample_id_next - sample_id);
-        data_length -= ffwd;
-        if (sample_size_bits >= 8) {
-            data = data_u8 + ffwd * (sample_size_bits / 8);
-        } else {
-            uint32_t shift = 0;
-            uint32_t shift_samples = 0;
-            if (sample_size_bits == 4) {
-                shift = (ffwd & 1) ? 4 : 0;
-                shift_samples = 1;
-            } else if (sample_size_bits == 1) {
-                shift = ffwd % sample_size_bits;
-                shift_samples = shift;
-            }
-            if (shift == 0) {
-                data = data_u8 + ffwd * (sample_size_bits / 8);
-            } else {
-                while (data_u8 < data_end_u8) {
-                    size_t sz = data_end_u8 - data_u8;
-                    if (sz > (sizeof(self->buffer_u64) - 8)) {
-                        sz = sizeof(self->buffer_u64) - 8;
-                    }
-                    memcpy(self->buffer_u64, data_u8, sz);
-                    self->buffer_u64[(sz / 8) + 1] = 0;
-                    size_t sz_words = (sz + 7) / 8;
-                    for (uint64_t idx = 0; idx < sz_words; ++idx) {
-                        self->buffer_u64[idx] = (self->buffer_u64[idx] >> shift)
-                                | (self->buffer_u64[idx + 1] << (64 - shift));
-                    }
-                    size_t entries = sz * (8 / sample_size_bits) - shift_samples;
-                    ROE(wr_data_inner(self, self->buffer_u64, (uint32_t) entries));
-                    data_u8 += sz - 1;
-                }
-                return 0;
-            }
-        }
+        return wr_data_inner(self, data, ((uint64_t) ffwd) * sample_size_bits, data_length - ffwd);
     } else {
         JLS_LOGW("fsr %d skip: in=%" PRIi64 " expect=%" PRIi64 ", skipped=%" PRIi64,
                  self->parent->signal_def.signal_id,
@@ -585,10 +550,10 @@ int32_t jls_wr_fsr_data(struct jls_core_fsr_s * self, int64_t sample_id, const v
             if (skip < buf_sz) {
                 buf_sz = skip;
             }
-            ROE(wr_data_inner(self, self->buffer_u64, (uint32_t) buf_sz));
+            ROE(wr_data_inner(self, self->buffer_u64, 0, (uint32_t) buf_sz));
             skip -= buf_sz;
         }
     }
 
-    return wr_data_inner(self, data, data_length);
+    return wr_data_inner(self, data, 0, data_length);
 }
